@@ -118,11 +118,15 @@ func VerifHT_C15_reader_script() {
 }
 
 // Quick variants: the same oracle with a fixed call pattern each.
-func VerifH_C15_reader_next_read_next() { c15Script(10, 3, 0b010, false, false, 3) }
+func VerifH_C15_reader_next_read_next() { c15Script(10, 3, 0b010, false, false, 2) }
+func VerifHT_C15_reader_t_next_read_next() { c15Script(12, 3, 0b010, false, false, 5) }
+func VerifHT_C15_reader_t_next_read_read() { c15Script(14, 3, 0b110, false, false, 5) }
+func VerifHT_C15_reader_t_fault_next_next() { c15Script(12, 2, 0b00, true, false, 5) }
+func VerifHT_C15_reader_t_fault_next_read() { c15Script(14, 2, 0b10, true, false, 5) }
 func VerifHT_C15_reader_symfrag() { c15Script(12, 3, 0b010, false, true, 0) }
-func VerifH_C15_reader_next_read_read() { c15Script(12, 3, 0b110, false, false, 5) }
-func VerifH_C15_reader_fault_next_next() { c15Script(10, 2, 0b00, true, false, 2) }
-func VerifH_C15_reader_fault_next_read() { c15Script(12, 2, 0b10, true, false, 5) }
+func VerifH_C15_reader_next_read_read() { c15Script(12, 3, 0b110, false, false, 3) }
+func VerifH_C15_reader_fault_next_next() { c15Script(10, 2, 0b00, true, false, 1) }
+func VerifH_C15_reader_fault_next_read() { c15Script(12, 2, 0b10, true, false, 2) }
 
 // c15Script: pattern < 0 = every step chosen freely; otherwise bit k of pattern says
 // whether step k is a Read (1) or a NextReader (0).  inject: a stream error may be
@@ -130,6 +134,7 @@ func VerifH_C15_reader_fault_next_read() { c15Script(12, 2, 0b10, true, false, 5
 func c15Script(L, K, pattern int, inject, frag bool, nchunk int) {
 	data := verif.Bytes(L)
 	rd := &fakeReader{data: data, fail: -1, frag: frag}
+	rd.eofWithData = verif.Bool()
 	if !frag {
 		// concrete fragmentation: unlimited, or at most 1, 3, 2, 5 bytes per stream read (first nchunk options)
 		rd.chunk = [5]int{0, 1, 3, 2, 5}[verif.Choose(nchunk)]
@@ -194,12 +199,12 @@ func c15Script(L, K, pattern int, inject, frag bool, nchunk int) {
 			if cur == nil {
 				continue
 			}
-			b := make([]byte, verif.Int(0, 12))
+			b := make([]byte, verif.Int(0, 20))
 			n, err := cur.Read(b)
 			verif.Assert(n >= 0 && n <= len(b), "Read count within buffer")
 			verif.Assert(uint64(got+n) <= hdr.ulen, "never more than declared")
 			verif.Assert(off+hdr.size+got+n <= len(data), "never more than supplied")
-			j := verif.Int(0, 11)
+			j := verif.Int(0, 19)
 			if j < n {
 				verif.Assert(b[j] == data[off+hdr.size+got+j], "payload bytes intact")
 			}
